@@ -171,6 +171,24 @@ fn one_case(rng: &mut Rng, case: &mut Case, p: &TyParams, with_machine: bool) ->
         }
         case.count("pairs.different-type");
     }
+    // values of different types that share one buffer at one offset (a product and its first component; a value and
+    // its product with unit): different types, so never equal, whatever the representation shares
+    for a in &g {
+        let mut others: Vec<(&'static str, simplicity::Value)> = Vec::new();
+        others.push(("product(v, unit)", simplicity::Value::product(a.value.clone(), simplicity::Value::unit())));
+        if let Some((l, _)) = a.value.as_product() {
+            others.push(("first component of v", l.to_value()));
+        }
+        for (what, o) in others {
+            if a.value == o || o == a.value {
+                return violated(format!("neq-type-shared-buffer:{}", a.hist), format!("{} : {} (via `{}`) compares equal to its {} of type {}", val::show(&v), t, a.hist, what, o.ty()));
+            }
+            if a.value.cmp(&o) == Ordering::Equal || o.cmp(&a.value) == Ordering::Equal || a.value.cmp(&o) != o.cmp(&a.value).reverse() {
+                return violated(format!("cmp-type-shared-buffer:{}", a.hist), format!("{} : {} (via `{}`) and its {} of type {}: cmp {:?} / {:?}", val::show(&v), t, a.hist, what, o.ty(), a.value.cmp(&o), o.cmp(&a.value)));
+            }
+            case.count("pairs.different-type-shared-buffer");
+        }
+    }
     if t.width == 0 {
         Outcome::Trivial
     } else {
